@@ -4,13 +4,37 @@ import json, subprocess
 props = [json.loads(l) for l in open('/verif/properties.jsonl')]
 ids = [p['id'] for p in props]
 claimed = {
+ "C01": dict(
+   text="Deductive proof over the real Table.Dispatch, Table.DispatchAggregate, SendAllMatch/SendFirstMatch.Dispatch, baseRoute.Match and Destination.Match: for all lines and all published table values (any number of blacklist entries, rewriters, aggregators, routes; routes pairwise distinct), the call log of every route's Dispatch grows by exactly the forwarded line iff the route's filter accepts the rewritten name and is unchanged otherwise (and for every object that is not a route of the table), unroutable/blacklist counters move exactly as stated, send-all-match sends to exactly the accepting destinations and send-first-match to the first one only. Loop invariants over the range index, no bound on table size.",
+   note="Route.Dispatch/Match are specified at the interface level (call logs are ghost state maintained by the verifier); Kafka/PubSub/CloudWatch/GrafanaNet/ConsistentHashing implementations are not checked against the interface contract here (ConsistentHashing: C15); the composition table->route->destination on the name is per-function, not one mechanised theorem; ValidatePacket, bytes.Fields/Join and the matcher externs are assumed contracts; channel FIFO assumed.",
+   ref="7 C01"),
+ "C02": dict(
+   text="Deductive proof that Table.Dispatch counts every line as inbound exactly once, that a line is rejected exactly when ValidatePacket (called with the levels of the loaded table value, in that argument order) rejects it, that a rejected line increments the invalid counter once, is reported to the bad-metrics channel with its key, text and reason, and reaches no aggregator and no route; that the level names strict/medium/none map to the documented levels in UnmarshalText and any other name is an error; IncNumInvalid counts both counters once.",
+   note="The validation grammar itself lives in the pinned module go-metrics20 and enters as uninterpreted functions (vpErr, vpKey, ...): whether it implements the documented grammar is outside /repo and not decided. BadMetrics.manage (the report side) and cfg default levels are not yet under contract.",
+   ref="7 C02"),
+ "C03": dict(
+   text="Deductive proof that Matcher.Match equals the documented six-way conjunction for every name and every well-formed matcher, that New/updateInternals establish well-formedness, that PreMatch decides exactly the cheap conditions and never rejects a name the filter accepts, that the aggregator's MatchRegexAndExpand/matchWithCache/AddMaybe decide consumption by the complete filter and that the match cache stays coherent across every lookup and insert (object invariant), and that routes, destinations and DispatchAggregate evaluate filters on the metric name only. The regex-prefix lemma (every match starts with the derived prefix) is decided by a bounded stand-in on the real regexToPrefix and regexp package.",
+   note="regexp/bytes functions are assumed contracts over uninterpreted reMatch/prefixof/contains; the prefix lemma is bounded (regexes '^'+<=4 tokens, thorough 5, inputs of length <=5) and is not counted as proved; the cache-expiry loop in Aggregator.run is not yet under contract.",
+   ref="7 C03"),
+ "C04": dict(
+   text="Deductive proof that the line handed to routes is exactly rewritten-name ++ ' ' ++ value-token ++ ' ' ++ timestamp-token with the tokens byte-for-byte as received (they are never re-printed), the name being the fold of the rewriters in table order (rwStep, defined by two equations), that RW.Do equals the documented rule (not-clause skip, regex replace-all, literal replace with max), that Dispatch leaves the caller's buffer unchanged, and that the one slice value handed to every route lives in storage allocated during the call (distinct from the caller's array).",
+   note="bytes.Replace/regexp.ReplaceAll/bytes.Fields/Join are assumed contracts; rewriter.New, Plain.Handle and the no-write frame of everything below Route.Dispatch are not yet under contract.",
+   ref="7 C04"),
  "C05": dict(
    text="Deductive proof, for all inputs, buffer sizes >= 1 and short-write/error behaviours of the underlying writer, that the buffered writer's accepted byte sequence (what the socket took ++ what is buffered) grows by exactly the bytes each Write reports as accepted and is unchanged by flush/Flush, including the short-write compaction path; loop invariants, no unrolling bound.",
-   note="Assumes the io.Writer contract (0<=n<=len(p), appends p[0:n], n<len(p) implies error), mathematical integers, erased logging/metrics calls; Conn.Write/HandleData framing and the pickle encoder are not yet under contract (listed in DESIGN.md section 7 C05); TCP delivery and channel FIFO order are assumptions.",
+   note="Assumes the io.Writer contract (0<=n<=len(p), appends p[0:n], n<len(p) implies error), mathematical integers, erased logging/metrics calls; Conn.Write/HandleData framing and the pickle encoder are not yet under contract; TCP delivery and channel FIFO order are assumptions.",
    ref="7 C05"),
+ "C11": dict(
+   text="Deductive proof that DispatchAggregate only calls Route.Match/Dispatch and the unroutable counter (frame: no validation, blacklist, rewriter, aggregator call, no other counter), so aggregate output cannot re-enter an aggregation for any rule set; that AddMaybe tells the table to withhold a metric exactly when drop-raw is set and the aggregation's complete filter accepts the name; and that Table.Dispatch offers the metric to aggregators in order up to and including the first consuming one and to no later aggregator and no route.",
+   note="Aggregator.Flush writing only to its out channel and the goroutine literal of table.New are not yet under contract; the cache object invariant is assumed at call sites (private state).",
+   ref="7 C11"),
+ "C18": dict(
+   text="Deductive proof, with panic-freedom obligations on, of the list semantics of AddRoute/AddBlacklist/AddAggregator/DelRoute/DelBlacklist/DelAggregator/GetRoute (append at end; delete removes exactly that entry and keeps order; unknown key is a no-op; index beyond the end is an error and publishes nothing), that each mutator publishes a complete TableConfig and releases the mutex, and of snapshot immutability: no slice reachable from the previously published value is written (exact append model: in place when capacity suffices, fresh array otherwise).",
+   note="Atomicity w.r.t. concurrent dispatchers follows from single Load per reader (visible in the Dispatch contracts), publication under the mutex and the proved immutability of published values, by the standard argument (not mechanised). AddRewriter/DelRewriter (slices of structs), route-level destination changes and Update* are not yet under contract.",
+   ref="7 C18"),
  "C19": dict(
-   text="Deductive proof of the sequential specification of the order validator (accept iff strictly newer than the stored timestamp of the key's hash; map updated only on accept; every other key untouched), of the package invariant (hash object reset and lock free on return) established by init, and of the lock discipline (every access to the map and the shared hash object happens while the mutex is held).",
-   note="Linearizability under concurrent callers follows from the proved lock discipline plus the sequential spec by the standard argument (not mechanised); fnv64a is uninterpreted and assumed collision-free on the names seen; hash.Hash and sync.Mutex contracts are assumed; the Dispatch-side accounting (counter, bad-metric record) is decided under C02's obligations on Table.Dispatch once those are claimed.",
+   text="Deductive proof of the sequential specification of the order validator (accept iff strictly newer than the stored timestamp of the key's hash; map updated only on accept; every other key untouched), of the package invariant (hash object reset and lock free on return) established by init, of the lock discipline (every access to the map and the shared hash object happens while the mutex is held), and of the Dispatch side: a rejected point is counted out-of-order exactly once, reported with the key, text and reason, and reaches no aggregator and no route.",
+   note="Linearizability under concurrent callers follows from the proved lock discipline plus the sequential spec by the standard argument (not mechanised); fnv64a is uninterpreted and assumed collision-free on the names seen; hash.Hash and sync.Mutex contracts are assumed.",
    ref="7 C19"),
 }
 reasons = {
